@@ -111,9 +111,9 @@ def audit(audit_mod, timeout=3000):
         rc, out2 = _run(["lake", "env", "lean", fn], timeout)
     res["log"] += out2
     ax = {}
-    for m in re.finditer(r"'([^']+)' depends on axioms: \[([^\]]*)\]", out2):
+    for m in re.finditer(r"'(\S+)' depends on axioms: \[([^\]]*)\]", out2):
         ax[m.group(1)] = {a.strip() for a in m.group(2).replace("\n", " ").split(",") if a.strip()}
-    for m in re.finditer(r"'([^']+)' does not depend on any axioms", out2):
+    for m in re.finditer(r"'(\S+)' does not depend on any axioms", out2):
         ax[m.group(1)] = set()
     for n in names:
         if n not in ax:
